@@ -98,6 +98,16 @@ def val(x):
 
 # ------------------------------------------------------------------ the context of one check run
 
+def _big_stack():
+    """coqc parses multi-megabyte literals recursively: give it the largest stack the system allows"""
+    import resource
+    try:
+        soft, hard = resource.getrlimit(resource.RLIMIT_STACK)
+        resource.setrlimit(resource.RLIMIT_STACK, (hard, hard))
+    except Exception:  # noqa: BLE001
+        pass
+
+
 class Ctx:
     def __init__(self, prop, tier, seed):
         self.prop = prop
@@ -190,8 +200,11 @@ class Ctx:
 
         def one(item):
             s0, path = item
-            r = subprocess.run(["coqc", "-Q", COQ, "RV", "-w", "none", path], capture_output=True, text=True,
-                               timeout=timeout, cwd=self.cases_dir)
+            try:
+                r = subprocess.run(["coqc", "-Q", COQ, "RV", "-w", "none", path], capture_output=True, text=True,
+                                   timeout=timeout, cwd=self.cases_dir, preexec_fn=_big_stack)
+            except subprocess.TimeoutExpired:
+                r = subprocess.CompletedProcess([], 124, "", f"coqc timed out after {timeout} s")
             return s0, path, r
 
         with concurrent.futures.ThreadPoolExecutor(max_workers=min(14, max(1, len(files)))) as ex:
@@ -232,7 +245,10 @@ class Ctx:
 
         def one(item):
             s0, path = item
-            r = subprocess.run(["coqc", "-Q", COQ, "RV", "-w", "none", path], capture_output=True, text=True, timeout=timeout, cwd=self.cases_dir)
+            try:
+                r = subprocess.run(["coqc", "-Q", COQ, "RV", "-w", "none", path], capture_output=True, text=True, timeout=timeout, cwd=self.cases_dir, preexec_fn=_big_stack)
+            except subprocess.TimeoutExpired:
+                r = subprocess.CompletedProcess([], 124, "", f"coqc timed out after {timeout} s")
             return s0, path, r
 
         err = None
@@ -266,8 +282,11 @@ class Ctx:
             f.write(f"From Coq Require Import String Ascii ZArith List QArith.\nImport ListNotations.\n{imports}\n{extra_defs}\n")
             for e in exprs:
                 f.write(f"Eval vm_compute in ({e}).\n")
-        r = subprocess.run(["coqc", "-Q", COQ, "RV", "-w", "none", path], capture_output=True, text=True,
-                           timeout=timeout, cwd=self.cases_dir)
+        try:
+            r = subprocess.run(["coqc", "-Q", COQ, "RV", "-w", "none", path], capture_output=True, text=True,
+                               timeout=timeout, cwd=self.cases_dir, preexec_fn=_big_stack)
+        except subprocess.TimeoutExpired:
+            r = subprocess.CompletedProcess([], 124, "", f"coqc timed out after {timeout} s")
         outs = [re.sub(r"\s+", " ", x).strip() for x in re.split(r"\n\s*=\s", "\n" + r.stdout)[1:]]
         if r.returncode != 0:
             outs.append("coqc failed: " + r.stderr[-1500:])
